@@ -1,7 +1,8 @@
 import A2Verif.Lemmas.Packing
 import A2Verif.Lemmas.PackText
 import A2Verif.Lemmas.PackJson
-import A2Verif.Lemmas.PackPascal
+import A2Verif.Lemmas.PackPascalPack
+import A2Verif.Lemmas.PackRecMain
 /-!
 # C13 — file packing encodings are exact inverse pairs
 
@@ -750,23 +751,53 @@ theorem simple_txt_refusal (t : Bytes) :
           · rw [if_pos h3]; simp [i3]; omega
           · rw [if_neg h3]; simp; omega
 
-/-! ### Pascal text (partial) -/
+/-! ### Pascal text -/
 
-/- FULL (not proved; covered by the byte-exact correspondence on multi-page texts and by the direct
-   oracle `unpack_txt(pack_txt(t))==t`):
-   theorem pascal_txt_roundtrip (f : FImg) (t : Bytes) (hn : 0 < f.chunkLen) (ht : TextOk t) (hnl : EndsNl t)
-       (g : FImg) (h : pascalPackTxt f t = .ok g) : pascalUnpackTxt g = .ok t
-   The induction over the input with the invariant "decoded(ans) ++ pending blanks = consumed input,
-   all DLE counts ≥ 32, page·1024 + count ≤ |ans|" is laid out in design/C13.md; the step that makes
-   pagination irrelevant is the theorem below. -/
+/-- **Clause: text (Pascal), refusal side.**  Packing a text of printable lines never panics (the
+only possible refusal is a line that does not fit a 1 KiB page: `paginate` finds no CR). -/
+theorem pascal_txt_no_panic (f : FImg) (t : Bytes) (ht : TextOk t) (hnl : EndsNl t) :
+    pascalPackTxt f t ≠ .panic := by
+  obtain ⟨t', rfl⟩ := hnl
+  have h := (pasFromUtf8_ok t' ht).1
+  unfold pascalPackTxt
+  cases he : pasFromUtf8 [0x0d] (t' ++ [0x0a]) with
+  | panic => exact absurd he h
+  | err => simp
+  | ok text => simp
 
-/-- **Clause: text (Pascal), the pagination step.**  `paginate` only ever inserts NULs directly
-after a CR of the encoded text; for every encoded text (all DLE counts ≥ 32, as the encoder
-writes them) this leaves the decoded text unchanged — for every position, every number of NULs,
-every page count. -/
-theorem pascal_txt_roundtrip_partial (n : Nat) (A B : Bytes) (h : wellCounted false (A ++ 0x0d :: B)) :
-    pasToUtf8 (A ++ 0x0d :: (List.replicate n 0 ++ B)) = pasToUtf8 (A ++ 0x0d :: B) :=
-  pasToLoop_insert_zeros n A B false h
+/-- **Clause: text (Pascal).**  For every text made of printable-ASCII lines each ending in a
+newline — any line lengths, any indentation, any number of 1 KiB pages — if `pack_txt` succeeds then
+`unpack_txt` returns exactly the text.  (Induction over the input with the invariant: the buffer is a
+complete token sequence with all DLE counts ≥ 32 that decodes to the consumed input minus the pending
+blanks, and `page·1024 + count_on_page ≤ |buffer|`; `paginate` only inserts NULs after a CR, which the
+decoder skips; the eof rule only removes trailing NULs.)  `hsz` excludes files of 4 GiB and more. -/
+theorem pascal_txt_roundtrip (f g : FImg) (t : Bytes) (hn : 0 < f.chunkLen) (ht : TextOk t) (hnl : EndsNl t)
+    (hsz : ∀ text, pasFromUtf8 [0x0d] t = .ok text → (pasHeader ++ text).length < 2 ^ 32)
+    (h : pascalPackTxt f t = .ok g) : pascalUnpackTxt g = .ok t := by
+  obtain ⟨t', rfl⟩ := hnl
+  unfold pascalPackTxt at h
+  cases he : pasFromUtf8 [0x0d] (t' ++ [0x0a]) with
+  | panic => rw [he] at h; cases h
+  | err => rw [he] at h; cases h
+  | ok text =>
+    rw [he] at h
+    simp only [Res.ok.injEq] at h
+    have hcore := (pasFromUtf8_ok t' ht).2 text he
+    have hlt := hsz text he
+    obtain ⟨h1, h2⟩ := pascal_unpack_core text (t' ++ [0x0a]) (by simp) hcore.2.2
+    have hseq : sequence g = pasHeader ++ text := by
+      rw [← h]; exact seqOfChunks f _ _ hn rfl
+    have heof : getEof g = (pasHeader ++ text).length - 512 * (trailingZeros (pasHeader ++ text) / 512) := by
+      rw [← h]
+      simp only [getEof, truncLe]
+      rw [leBytes_take, leVal_leBytes]
+      have h32 : (256 : Nat) ^ (min 8 4) = 2 ^ 32 := by decide
+      rw [h32, Nat.mod_mod, Nat.mod_eq_of_lt (by omega)]
+    unfold pascalUnpackTxt
+    simp only [textPage]
+    have h1' : ¬ (((pasHeader ++ text).take ((pasHeader ++ text).length - 512 * (trailingZeros (pasHeader ++ text) / 512))).length < 1024 + 1) := h1
+    rw [sequenceLimited_eq_take, hseq, heof]
+    simp only [h1', if_false, h2]
 
 /-- an instance of the full round trip evaluated by the kernel (header page + one text page, indent
 codes, a blank-only line); multi-page texts are exercised on the real code and the model by the harness -/
@@ -911,12 +942,92 @@ and is now an error; an out-of-range chunk length or index is now refused -/
 example : fimgFromJson .legacy (.obj [(kFimgVersion, .str [97,98,99])]) = .panic ∧
     fimgFromJson .bounded (.obj [(kFimgVersion, .str [97,98,99])]) = .err := by decide +kernel
 
-/-! ## Part 3: records (partial) -/
+/-- **Clause: a record set written as JSON parses back to an equal value** — for every record
+length and every non-empty set of records (keys in ascending order, as the model renders a map)
+whose texts are what `Records` holds after `from_json`/`from_fimg`: no CR, and a non-empty text ends
+in a newline.  (`json` crate = parameter; an empty set is rejected by `from_json` by design.) -/
+theorem recs_json_roundtrip (recLen : Nat) (rs : List (Nat × Bytes)) (hne : rs ≠ [])
+    (hs : SortedKeys rs) (ht : ∀ p ∈ rs, RecTextOk p.2) :
+    recsFromJson (recsToJson recLen rs) = .ok (recLen, rs) := by
+  have g1 : (recsToJson recLen rs).get kFimgType = .str kRec := rfl
+  have g2 : (recsToJson recLen rs).get kRecordLength = .num recLen := rfl
+  have g3 : (recsToJson recLen rs).get kRecords =
+      .obj (rs.map (fun (p : Nat × Bytes) => (decStr p.1, J.arr ((strLines p.2).map J.str)))) := rfl
+  unfold recsFromJson
+  simp only [g1, g2, g3, J.asStr, J.asNum, J.entries, if_true, List.length_map]
+  have hl : ¬ rs.length = 0 := by
+    intro h; exact hne (List.eq_nil_of_length_eq_zero h)
+  rw [if_neg hl, parseRecs_roundtrip rs [] hs (fun _ _ a ha => by cases ha) ht]
+  rfl
 
-/- FULL (not proved): for record sets whose encoded records fit `record_len`,
-   `unpackRec .zeroFill fs g (some recLen) = .ok m → ∀ r ∈ recs, r ∈ m` whenever `packRec fs f recLen recs = .ok g`.
-   Covered by the byte-exact correspondence (record lengths 2…512, indices straddling chunk
-   boundaries) and the direct oracle `unpack_rec(pack_rec(rs)) contains rs`. -/
+example : recsFromJson (recsToJson 128 [(0, strBytes "A\nB\n"), (9, []), (10, strBytes "\n")])
+    = .ok (128, [(0, strBytes "A\nB\n"), (9, []), (10, strBytes "\n")]) := by decide +kernel
+
+/-! ## Part 3: records -/
+
+theorem dosToUtf8_decOk : DecOk dosToUtf8 :=
+  ⟨fun a b => by simp [dosToUtf8], fun k => by simp [dosToUtf8]⟩
+
+theorem prodosToUtf8_decOk : DecOk prodosToUtf8 :=
+  ⟨fun a b => by simp [prodosToUtf8], fun k => by simp [prodosToUtf8]⟩
+
+theorem textOk_no_nul (t : Bytes) (ht : TextOk t) : 0 ∉ t := by
+  intro h
+  rcases ht 0 h with h1 | ⟨h1, _⟩ <;> omega
+
+/-- a record text: printable-ASCII lines each ending in a newline, at most `L` bytes -/
+def RecOk (L : Nat) (p : Nat × Bytes) : Prop := TextOk p.2 ∧ EndsNl p.2 ∧ p.2.length ≤ L
+
+theorem dos_goodRec (L : Nat) (p : Nat × Bytes) (h : RecOk L p) :
+    ∃ d, GoodRec (dosFromUtf8 [0x8d]) L p d ∧ dosToUtf8 d = p.2 ∧ 0 ∉ p.2 ∧ p.2 ≠ [] := by
+  obtain ⟨ht, ⟨t', ht'⟩, hl⟩ := h
+  have henc : dosFromUtf8 [0x8d] p.2 = some (p.2.map dosEnc) := by
+    rw [ht'] at ht ⊢
+    unfold dosFromUtf8
+    rw [dosFromLoop_ok _ ht]
+    simp only [Option.map_some, List.map_append, List.map_cons, List.map_nil]
+    have : dosEnc 0x0a = 0x8d := by decide
+    rw [this, terminate_snoc]
+  have hne : p.2 ≠ [] := by rw [ht']; simp
+  exact ⟨p.2.map dosEnc, ⟨henc, by simpa using hne, by simpa using hl⟩, dosToUtf8_enc _ ht, textOk_no_nul _ ht, hne⟩
+
+theorem prodos_goodRec (L : Nat) (p : Nat × Bytes) (h : RecOk L p) :
+    ∃ d, GoodRec (prodosFromUtf8 [0x0d]) L p d ∧ prodosToUtf8 d = p.2 ∧ 0 ∉ p.2 ∧ p.2 ≠ [] := by
+  obtain ⟨ht, ⟨t', ht'⟩, hl⟩ := h
+  have henc : prodosFromUtf8 [0x0d] p.2 = some (p.2.map prodosEnc) := by
+    rw [ht'] at ht ⊢
+    unfold prodosFromUtf8
+    rw [prodosFromLoop_ok _ ht]
+    simp only [Option.map_some, List.map_append, List.map_cons, List.map_nil]
+    have : prodosEnc 0x0a = 0x0d := by decide
+    rw [this, terminate_snoc]
+  have hne : p.2 ≠ [] := by rw [ht']; simp
+  exact ⟨p.2.map prodosEnc, ⟨henc, by simpa using hne, by simpa using hl⟩, prodosToUtf8_enc _ ht, textOk_no_nul _ ht, hne⟩
+
+/-- **Clause: every stored record of a random-access text file (DOS 3.x).**  For every record
+length, chunk length and set of records with distinct numbers, each a text of printable lines ending in
+a newline that fits the record length (so records do not overlap): if `pack_rec` succeeds, the repaired
+`unpack_rec` returns a map that contains every stored record, unchanged — wherever the record falls
+relative to chunk boundaries, and whichever chunks stay unallocated. -/
+theorem dos_records_roundtrip (f g : FImg) (L : Nat) (recs : List (Nat × Bytes)) (hL : 0 < L ∧ L < 32768)
+    (hnd : (recs.map Prod.fst).Nodup) (hrec : ∀ p ∈ recs, RecOk L p)
+    (h : packRec .dos f L recs = .ok g) :
+    ∃ m, unpackRec .zeroFill .dos g (some L) = .ok m ∧ ∀ p ∈ recs, p ∈ m := by
+  have := records_found (dosFromUtf8 [0x8d]) dosToUtf8 dosToUtf8_decOk L recs _ g false hnd
+    (fun p hp => dos_goodRec L p (hrec p hp)) h
+  simpa only [unpackRec, hL, and_self, if_true] using this
+
+/-- **The same for ProDOS** (first chunk always allocated, record length kept in `aux`). -/
+theorem prodos_records_roundtrip (f g : FImg) (L : Nat) (recs : List (Nat × Bytes)) (hL : 0 < L ∧ L < 32768)
+    (hnd : (recs.map Prod.fst).Nodup) (hrec : ∀ p ∈ recs, RecOk L p)
+    (h : packRec .prodos f L recs = .ok g) :
+    ∃ m, unpackRec .zeroFill .prodos g (some L) = .ok m ∧ ∀ p ∈ recs, p ∈ m := by
+  unfold packRec at h
+  simp only [] at h
+  rw [if_neg (by omega)] at h
+  have := records_found (prodosFromUtf8 [0x0d]) prodosToUtf8 prodosToUtf8_decOk L recs _ g true hnd
+    (fun p hp => prodos_goodRec L p (hrec p hp)) h
+  simpa only [unpackRec, hL, and_self, if_true] using this
 
 /-- **The code at HEAD violates the records clause.**  DOS 3.3 (256-byte chunks), record length 128,
 one record number 1 holding `A`: `pack_rec` stores it in chunk 0, but `unpack_rec` also demands
@@ -929,7 +1040,7 @@ theorem records_lost_at_head :
   decide +kernel
 
 /-- a record that straddles a chunk boundary, next to a neighbour, is returned by the repaired reader -/
-theorem records_partial :
+theorem records_straddle_instance :
     (packRec .prodos (newFimg .prodos 512 []) 300 [(1, List.replicate 249 0x41 ++ [0x0a]), (2, strBytes "NEXT\n")]).bind
       (fun g => unpackRec .zeroFill .prodos g none) = .ok [(1, List.replicate 249 0x41 ++ [0x0a]), (2, strBytes "NEXT\n")] := by
   decide +kernel
